@@ -532,7 +532,7 @@ def pyref(case, tabs):
             else:
                 best = []
                 for s in cs_samples(t["cs"]["chunks"], t["cs"]["k"], t["cs"]["shuffled"]):
-                    r = pyref_type(sub_table(t, s, t["n_best"] // 2))
+                    r = pyref_type(sub_table(t, s, max(1, t["n_best"] // 2)))
                     if r == "internal":
                         return "internal"
                     best += r
@@ -1372,7 +1372,7 @@ class C14(Prop):
     theorems = ["C14_select_distinct_inputs", "C14_sorted_by_decreasing_measure",
                 "C14_at_most_n_best_per_measure", "C14_greedy_independent", "C14_greedy_maximal",
                 "C14_best_feature_returned", "C14_union_independent_refuted", "C14_checker_sound"]
-    rule = ("one ClassificationSelector/RegressionSelector.select(X, y) per case: 8-60 rows, up to 7 "
+    rule = ("one ClassificationSelector/RegressionSelector.select(X, y) per case: 4-60 rows (12% tiny frames of 4-11 rows + a dozen directed cases with as many rows as columns of the association table), up to 7 "
             "quantitative and 5 qualitative features built as correlated clusters (copies, affine / "
             "monotone / noisy / coarsened versions, renamed categories), target-informative columns, "
             "constant and all-NaN columns, NaN shares 5-90%; binary / multiclass / continuous targets; "
